@@ -21,6 +21,10 @@ PINS = [
     'mesonbuild.utils.universal:Range',
     'mesonbuild.utils.universal:version_check_to_range',
     'mesonbuild.utils.universal:version_compare_condition_with_min',
+    'mesonbuild.interpreterbase.interpreterbase:InterpreterBase.evaluate_if',
+    'mesonbuild.interpreterbase.decorators:FeatureCheckBase.use',
+    'mesonbuild.interpreterbase.decorators:FeatureCheckBase.get_target_version',
+    'mesonbuild.interpreter.interpreter:Interpreter.handle_meson_version',
 ]
 TRUSTED = ['Python primitive comparisons on int/str/bool/len are the orders the model uses (Nat order, code-point lexicographic)',
            'domain: ASCII strings plus non-ASCII code points that CPython classes as neither digit, letter nor space; '
@@ -329,6 +333,10 @@ def run(ctx: Ctx) -> None:
         interp_stream(ctx, U, add, small)
     except Exception as e:  # harness-side problem with the in-process interpreter: note it, do not crash
         ctx.notes.append(f'interpreter stream unavailable: {type(e).__name__}: {e}')
+    try:
+        gate_stream(ctx, U, add, small)
+    except Exception as e:
+        ctx.notes.append(f'feature-gate stream unavailable: {type(e).__name__}: {e}')
 
     # ---- correspondence: model driver on the same inputs
     ctx.count(len(cases))
@@ -407,6 +415,219 @@ def interp_stream(ctx: Ctx, U, add, small) -> None:
             if xv is not want_b:
                 ctx.violation(f'interp-mv:{conds!r}', 'meson.version().version_compare() result is not the conjunction', {'conds': conds})
     finally:
+        impl_i.close()
+
+
+
+# ------------------------------------------------------------------ the range algebra as evaluate_if applies it
+
+class GateGen:
+    """if/elif/else skeletons whose conditions are meson.version().version_compare(...) calls, plain booleans
+    or both; every block holds probes `message('P<n>')`.  Statically known per probe: the constraint lists of
+    the enclosing clauses that make a version check (its path)."""
+
+    def __init__(self, rng, cv: str) -> None:
+        self.rng = rng
+        self.cv = cv
+        self.n = 0
+        self.lines: T.List[str] = []
+        self.toks: T.List[str] = []
+        self.paths: T.Dict[int, T.List[T.List[str]]] = {}
+        self.clause_lines: T.Dict[int, T.Tuple[T.Optional[T.List[str]], T.List[T.List[str]]]] = {}
+        self.pool = ['0.40', '0.50.0', '0.63', '1.0', '1.2.0', '1.3', cv, '2.0', '99']
+        self.kinds: T.Set[str] = set()
+
+    def cond(self, U) -> T.Tuple[str, T.Optional[T.List[str]], bool]:
+        rng = self.rng
+        k = rng.random()
+        if k < 0.6:
+            checks = []
+            while not checks:
+                checks = [c for c in (rand_check(rng, self.pool) for _ in range(rng.choice([1, 1, 1, 2])))
+                          if not c.strip().startswith('!') and _lit(c) is not None]
+            val = all(U.version_compare(self.cv, c) for c in checks)
+            txt = 'meson.version().version_compare(' + ', '.join(_lit(c) for c in checks) + ')'
+            form = rng.choice(['plain', 'plain', 'and-t', 'or-f', 'paren'])
+            if form == 'and-t':
+                txt = txt + ' and t'
+            elif form == 'or-f':
+                txt = txt + ' or f'
+            elif form == 'paren':
+                txt = '(' + txt + ')'
+            self.kinds.add('vc:' + form + ':' + ('T' if val else 'F'))
+            return txt, checks, val
+        val = rng.random() < 0.5
+        form = rng.choice(['lit', 'var', 'cmp'])
+        txt = {'lit': 'true' if val else 'false', 'var': 't' if val else 'f', 'cmp': '1 == 1' if val else '1 == 2'}[form]
+        self.kinds.add('plain:' + ('T' if val else 'F'))
+        return txt, None, val
+
+    def block(self, U, depth: int, path: T.List[T.List[str]]) -> None:
+        rng = self.rng
+        for _ in range(rng.randint(1, 3)):
+            if depth < 3 and rng.random() < 0.55:
+                self.ifstmt(U, depth, path)
+            else:
+                self.n += 1
+                self.paths[self.n] = list(path)
+                self.lines.append(f"message('P{self.n}')")
+                self.toks.append(f'P{self.n}')
+
+    def ifstmt(self, U, depth: int, path: T.List[T.List[str]]) -> None:
+        rng = self.rng
+        self.toks.append('I')
+        nclauses = rng.choice([1, 1, 2, 2, 3])
+        for i in range(nclauses):
+            txt, checks, val = self.cond(U)
+            self.lines.append(('if ' if i == 0 else 'elif ') + txt)
+            self.clause_lines[len(self.lines)] = (checks, list(path))
+            self.toks.append(f'C{int(val)}:' + (enc_list(checks) if checks else ''))
+            self.block(U, depth + 1, path + ([checks] if checks else []))
+        if rng.random() < 0.6:
+            self.lines.append('else')
+            self.toks.append('E')
+            self.block(U, depth + 1, path)
+        self.lines.append('endif')
+        self.toks.append('F')
+
+
+def gate_expected_sequence(toks: T.List[str]) -> T.List[int]:
+    """probe ids in execution order, from the truth values alone (reference evaluation of the skeleton)"""
+    out: T.List[int] = []
+    pos = 0
+
+    def block(run: bool) -> None:
+        nonlocal pos
+        while pos < len(toks):
+            t = toks[pos]
+            if t.startswith('P'):
+                pos += 1
+                if run:
+                    out.append(int(t[1:]))
+            elif t == 'I':
+                pos += 1
+                taken = False
+                while pos < len(toks) and toks[pos].startswith('C'):
+                    val = toks[pos][1] == '1'
+                    pos += 1
+                    block(run and not taken and val)
+                    taken = taken or val
+                if pos < len(toks) and toks[pos] == 'E':
+                    pos += 1
+                    block(run and not taken)
+                if pos < len(toks) and toks[pos] == 'F':
+                    pos += 1
+            else:
+                return
+    block(True)
+    return out
+
+
+def gate_stream(ctx: Ctx, U, add, small) -> None:
+    """While the block of an if/elif clause runs, the project's version range (what FeatureNew/FeatureDeprecated
+    read) must be the range in force outside narrowed by the version checks of that clause's own condition and of
+    the enclosing clauses — nothing from a sibling clause or an earlier statement — and it must be back afterwards.
+    The range in force is read off the real interpreter at every message() call."""
+    import copy
+    from . import c01_impl
+    from mesonbuild import coredata, mesonlib, mlog
+    rng = ctx.rng
+    impl_i = c01_impl.Impl()
+    log: T.List[T.Tuple[int, T.Any]] = []
+    warns: T.List[T.Tuple[str, int]] = []
+    prev_log, prev_warn = mlog.log, mlog.warning
+
+    def cap_log(*args: T.Any, **kw: T.Any) -> None:
+        if args and isinstance(args[0], mlog.AnsiDecorator) and args[0].text == 'Message:' and len(args) > 1 \
+                and str(args[1]).startswith('P'):
+            log.append((int(str(args[1])[1:]), copy.deepcopy(mesonlib.project_meson_versions.get(impl_i.interp.subproject))))
+
+    def cap_warn(*args: T.Any, **kw: T.Any) -> None:
+        txt = ' '.join(str(a) for a in args)
+        if 'Conditional on version' in txt:
+            loc = kw.get('location')
+            warns.append((txt, getattr(loc, 'lineno', -1)))
+
+    cv = coredata.version
+    grid = sorted(set(small[::7] + ['0', '0.39', '0.40', '0.45', '0.50', '0.50.0', '0.50.1', '0.63', '0.63.0', '0.99', '1', '1.0',
+                                    '1.0.0', '1.0.1', '1.2', '1.2.0', '1.2.1', '1.3', '1.3.0', '1.5', cv, cv + '.1', '2.0', '2.0.0',
+                                    '2.1', '98', '99', '99.0', '100']))
+    kinds: T.Set[str] = set()
+    try:
+        mlog.log, mlog.warning = cap_log, cap_warn
+        for _ in range(ctx.scale(1200, 12000)):
+            pv = rng.choice(['>=0.50', '>=0.63.0', '>= 1.0', '>=1.3', '>0.40'])
+            g = GateGen(rng, cv)
+            g.lines += ['t = true', 'f = false']
+            g.block(U, 0, [])
+            code = '\n'.join(g.lines) + '\n'
+            prog = ';'.join(g.toks)
+            del log[:], warns[:]
+            impl_i.reset()
+            mesonlib.project_meson_versions[impl_i.interp.subproject] = U.version_check_to_range([pv])
+            try:
+                impl_i.interp.evaluate_codeblock(impl_i.parse(code))
+            except Exception as e:
+                ctx.disagreement({'kind': 'gate', 'input': [pv, code], 'impl': f'ERR:{type(e).__name__}', 'model': 'runs'})
+                continue
+            finally:
+                after = mesonlib.project_meson_versions.get(impl_i.interp.subproject)
+            ctx.count()
+            kinds |= g.kinds
+            case = {'pv': pv, 'code': code}
+            # --- oracle 1: the executed probes are the ones the truth values select, in order
+            want_seq = gate_expected_sequence(g.toks)
+            if [n for n, _ in log] != want_seq:
+                ctx.violation(f'gate-seq:{pv}:{code!r}', f'blocks executed {[n for n, _ in log]}, the conditions select {want_seq}', case)
+                continue
+            # --- oracle 2: membership in the range in force = outer constraint and the checks on the path
+            bad = None
+            for n, r in log:
+                if r is None or not hasattr(r, 'intersect'):
+                    bad = f'P{n}: no version range in force'
+                    break
+                for vs in grid:
+                    want = U.version_compare(vs, pv) and all(U.version_compare(vs, c) for cl in g.paths[n] for c in cl)
+                    if (U.Version(vs) in r) != want:
+                        bad = (f"P{n}: version {vs} is {'in' if not want else 'not in'} the range in force ({r}) although it "
+                               f"{'satisfies' if want else 'does not satisfy'} the project constraint {pv!r} and the checks "
+                               f'of the enclosing clauses {g.paths[n]}')
+                        break
+                if bad:
+                    break
+            if bad is None and (after is None or show_range(after) != show_range(U.version_check_to_range([pv]))):
+                bad = 'the range in force after the statements is not the project range any more'
+            # --- oracle 3: "always evaluates to" verdicts only at clauses that make a check, and only when true of every/no version
+            seen_lines: T.Set[int] = set()
+            for txt, ln in warns:
+                if bad:
+                    break
+                # line numbers: 2 header lines precede the skeleton lines, g.lines is 1-based as written
+                cl = g.clause_lines.get(ln)
+                if cl is None or cl[0] is None:
+                    bad = f'line {ln}: "{txt}" reported at a clause whose condition makes no version check'
+                    break
+                if ln in seen_lines:
+                    bad = f'line {ln}: verdict reported twice'
+                    break
+                seen_lines.add(ln)
+                checks, path = cl
+                members = [vs for vs in grid if U.version_compare(vs, pv) and all(U.version_compare(vs, c) for pl in path for c in pl)]
+                sat = [vs for vs in members if all(U.version_compare(vs, c) for c in checks)]
+                if 'evaluates to true' in txt and len(sat) != len(members):
+                    bad = f'line {ln}: said always true, but {sorted(set(members) - set(sat))[:3]} are in range and fail {checks}'
+                if 'evaluates to false' in txt and sat:
+                    bad = f'line {ln}: said always false, but {sat[:3]} are in range and satisfy {checks}'
+            if bad:
+                ctx.violation(f'gate:{pv}:{code!r}', bad, case)
+            add('gate', [pv, code], f'gate {enc(pv)}|{prog}', '&'.join(f'{n}:{show_range(r)}' for n, r in log))
+            if any(g.paths[n] for n, _ in log):
+                ctx.seen_nontrivial(('gate', code))
+        for k in sorted(kinds):
+            ctx.tag('gate-cond:' + k)
+    finally:
+        mlog.log, mlog.warning = prev_log, prev_warn
+        mesonlib.project_meson_versions.pop(impl_i.interp.subproject, None)
         impl_i.close()
 
 
